@@ -258,6 +258,16 @@ def _progs():
     def g_rta(rng):
         s = rshape(rng, cap=16); return [s, bpartner(rng, s)], P(axes=perm(rng, len(s)), r=rng.randint(1, 3), axis=rng.randrange(len(s)))
     add('rep_tr_add', 8, 3, lambda A, p: np.repeat(np.transpose(A[0] + A[1], p['axes']), p['r'], p['axis']), g_rta)
+    # ---- both operands of a broadcasting binary ufunc are views, reductions over such nodes (depth 2, 3) ----
+    def g_add_tr_neg(rng):
+        s = rshape(rng); ax = perm(rng, len(s)); ts = [s[i] for i in ax]; return [s, bpartner(rng, ts)], P(axes=ax)
+    add('add_tr_neg', 9, 2, lambda A, p: np.transpose(A[0], p['axes']) + (-A[1]), g_add_tr_neg, nonfirst=True)
+    def g_same_axis(rng):
+        s = rshape(rng, min_rank=2); return [s, list(s)], P(axis=rng.randrange(len(s)))
+    add('mul_sum_sum', 9, 2, lambda A, p: np.sum(A[0], axis=p['axis'], keepdims=True) * np.sum(A[1], axis=p['axis'], keepdims=True), g_same_axis, data='small', nonfirst=True)
+    add('sum_add_neg_neg', 9, 3, lambda A, p: np.sum((-A[0]) + (-A[1]), axis=p['axis']), g_sum_mul, nonfirst=True)
+    add('max_mul_add', 9, 2, lambda A, p: np.maximum(A[0] * A[1], A[2] + A[3]), g_quad, data='small', nonfirst=True)
+    add('neg_add_mul_mul', 9, 3, lambda A, p: -(A[0] * A[1] + A[2] * A[3]), g_quad, data='small', nonfirst=True)
     # ---- column-major leaves (known finding kernel.colmajor-operand) ----
     add('transpose_col', 6, 1, lambda A, p: np.transpose(A[0], p['axes']), g_transpose, layout='col')
     add('add_col', 6, 1, lambda A, p: A[0] + A[1], g_bin, layout='col')
@@ -265,7 +275,7 @@ def _progs():
 
 
 PROGS = _progs()
-GROUPS = [1, 2, 3, 4, 5, 6, 7, 8]
+GROUPS = [1, 2, 3, 4, 5, 6, 7, 8, 9]
 
 
 def harness_specs(tier):
